@@ -83,10 +83,10 @@ static void t_digest(void *c, char *out) { qtreetbl_t *t = c; char *p = out; p +
 static void t_destroy(void *c) { ((qtreetbl_t *)c)->free(c); }
 static void *t_mutex(void *c) { return ((qtreetbl_t *)c)->qmutex; }
 #define T_ ((qtreetbl_t *)c)
-static void t_puta(void *c, res_t *r) { rfmt(r, "%d", T_->putstr(T_, "a", "A")); }
+static void t_puta(void *c, res_t *r) { rfmt(r, "%d", T_->putstr(T_, "a", "AAA")); }   /* another length than the initial value: a copy must come with its own size */
 static void t_putb(void *c, res_t *r) { rfmt(r, "%d", T_->putstr(T_, "b", "B")); }
 static void t_putc(void *c, res_t *r) { rfmt(r, "%d", T_->putstr(T_, "c", "C")); }
-static void t_geta(void *c, res_t *r) { char *p = T_->getstr(T_, "a", true); rfmt(r, "%s", p ? p : "NULL"); free(p); }
+static void t_geta(void *c, res_t *r) { size_t sz = 0; char *p = T_->get(T_, "a", &sz, true); rfmt(r, "%s/%zu", p ? p : "NULL", sz); free(p); }
 static void t_getb(void *c, res_t *r) { char *p = T_->getstr(T_, "b", true); rfmt(r, "%s", p ? p : "NULL"); free(p); }
 static void t_rema(void *c, res_t *r) { rfmt(r, "%d", T_->remove(T_, "a")); }
 static void t_remb(void *c, res_t *r) { rfmt(r, "%d", T_->remove(T_, "b")); }
@@ -97,7 +97,7 @@ static void t_lockedwalk(void *c, res_t *r) { T_->lock(T_); qtreetbl_obj_t o; me
 /* a second thread-safe table that only this thread uses: its lock does not order it against the shared table, so any
  * state the implementation shares between tables (file-scope variables) shows up as a data race */
 static void t_owntable(void *c, res_t *r) { (void)c; qtreetbl_t *t = qtreetbl(QTREETBL_THREADSAFE); t->putstr(t, "p", "1"); t->putstr(t, "q", "2"); rfmt(r, "%zu", t->size(t)); t->free(t); }
-static cop_t T_OPS[] = {{"put(a)", t_puta}, {"put(b)", t_putb}, {"put(c)", t_putc}, {"get(a,newmem)", t_geta}, {"get(b,newmem)", t_getb}, {"remove(a)", t_rema}, {"remove(b)", t_remb}, {"clear", t_clear}, {"find_min", t_min}, {"find_nearest(b,newmem)", t_nearest}, {"lock;walk;unlock", t_lockedwalk}, {"own-table put(p),put(q)", t_owntable}};
+static cop_t T_OPS[] = {{"put(a)", t_puta}, {"put(b)", t_putb}, {"put(c)", t_putc}, {"get(a,&size,newmem)", t_geta}, {"get(b,newmem)", t_getb}, {"remove(a)", t_rema}, {"remove(b)", t_remb}, {"clear", t_clear}, {"find_min", t_min}, {"find_nearest(b,newmem)", t_nearest}, {"lock;walk;unlock", t_lockedwalk}, {"own-table put(p),put(q)", t_owntable}};
 
 /* ------------------------------------------------------------ qhashtbl (range 1: every key shares one chain) */
 static void *h_make(int init) { qhashtbl_t *t = qhashtbl(1, QHASHTBL_THREADSAFE); if (init) { t->putstr(t, "a", "1"); t->putstr(t, "b", "2"); } return t; }
@@ -105,16 +105,16 @@ static void h_digest(void *c, char *out) { qhashtbl_t *t = c; char *p = out; p +
 static void h_destroy(void *c) { ((qhashtbl_t *)c)->free(c); }
 static void *h_mutex(void *c) { return ((qhashtbl_t *)c)->qmutex; }
 #define H ((qhashtbl_t *)c)
-static void h_puta(void *c, res_t *r) { rfmt(r, "%d", H->putstr(H, "a", "A")); }
+static void h_puta(void *c, res_t *r) { rfmt(r, "%d", H->putstr(H, "a", "AAA")); }
 static void h_putb(void *c, res_t *r) { rfmt(r, "%d", H->putstr(H, "b", "B")); }
 static void h_putc(void *c, res_t *r) { rfmt(r, "%d", H->putint(H, "c", 3)); }
-static void h_geta(void *c, res_t *r) { char *p = H->getstr(H, "a", true); rfmt(r, "%s", p ? p : "NULL"); free(p); }
+static void h_geta(void *c, res_t *r) { size_t sz = 0; char *p = H->get(H, "a", &sz, true); rfmt(r, "%s/%zu", p ? p : "NULL", sz); free(p); }
 static void h_getc(void *c, res_t *r) { rfmt(r, "%lld", (long long)H->getint(H, "c")); }
 static void h_rema(void *c, res_t *r) { rfmt(r, "%d", H->remove(H, "a")); }
 static void h_remb(void *c, res_t *r) { rfmt(r, "%d", H->remove(H, "b")); }
 static void h_clear(void *c, res_t *r) { H->clear(H); rfmt(r, "ok"); }
 static void h_lockedwalk(void *c, res_t *r) { H->lock(H); qhashtbl_obj_t o; memset(&o, 0, sizeof o); rfmt(r, "w:"); int n = 0; while (H->getnext(H, &o, false) && n++ < 10) radd(r, "%s=%s,", o.name, (char *)o.data); H->unlock(H); }
-static cop_t H_OPS[] = {{"put(a)", h_puta}, {"put(b)", h_putb}, {"putint(c)", h_putc}, {"get(a,newmem)", h_geta}, {"getint(c)", h_getc}, {"remove(a)", h_rema}, {"remove(b)", h_remb}, {"clear", h_clear}, {"lock;walk;unlock", h_lockedwalk}};
+static cop_t H_OPS[] = {{"put(a)", h_puta}, {"put(b)", h_putb}, {"putint(c)", h_putc}, {"get(a,&size,newmem)", h_geta}, {"getint(c)", h_getc}, {"remove(a)", h_rema}, {"remove(b)", h_remb}, {"clear", h_clear}, {"lock;walk;unlock", h_lockedwalk}};
 
 /* ------------------------------------------------------------ qlisttbl (plain and UNIQUE) */
 static int LT_UNIQUE;
@@ -123,16 +123,16 @@ static void lt_digest(void *c, char *out) { qlisttbl_t *t = c; char *p = out; p 
 static void lt_destroy(void *c) { ((qlisttbl_t *)c)->free(c); }
 static void *lt_mutex(void *c) { return ((qlisttbl_t *)c)->qmutex; }
 #define LT ((qlisttbl_t *)c)
-static void lt_puta(void *c, res_t *r) { rfmt(r, "%d", LT->putstr(LT, "a", "A")); }
+static void lt_puta(void *c, res_t *r) { rfmt(r, "%d", LT->putstr(LT, "a", "AAA")); }
 static void lt_putb(void *c, res_t *r) { rfmt(r, "%d", LT->putstr(LT, "b", "B")); }
-static void lt_geta(void *c, res_t *r) { char *p = LT->getstr(LT, "a", true); rfmt(r, "%s", p ? p : "NULL"); free(p); }
+static void lt_geta(void *c, res_t *r) { size_t sz = 0; char *p = LT->get(LT, "a", &sz, true); rfmt(r, "%s/%zu", p ? p : "NULL", sz); free(p); }
 static void lt_multia(void *c, res_t *r) { size_t n = 0; qlisttbl_data_t *d = LT->getmulti(LT, "a", true, &n); rfmt(r, "n=%zu:", n); for (size_t i = 0; d && i < n && i < 6; i++) radd(r, "%s,", (char *)d[i].data); LT->freemulti(d); }
 static void lt_rema(void *c, res_t *r) { rfmt(r, "%zu", LT->remove(LT, "a")); }
 static void lt_remb(void *c, res_t *r) { rfmt(r, "%zu", LT->remove(LT, "b")); }
 static void lt_clear(void *c, res_t *r) { LT->clear(LT); rfmt(r, "ok"); }
 static void lt_sort(void *c, res_t *r) { LT->sort(LT); rfmt(r, "ok"); }
 static void lt_lockedwalk(void *c, res_t *r) { LT->lock(LT); qlisttbl_obj_t o; memset(&o, 0, sizeof o); rfmt(r, "w:"); int n = 0; while (LT->getnext(LT, &o, NULL, false) && n++ < 12) radd(r, "%s=%s,", o.name, (char *)o.data); LT->unlock(LT); }
-static cop_t LT_OPS[] = {{"put(a)", lt_puta}, {"put(b)", lt_putb}, {"get(a,newmem)", lt_geta}, {"getmulti(a,newmem)", lt_multia}, {"remove(a)", lt_rema}, {"remove(b)", lt_remb}, {"clear", lt_clear}, {"sort", lt_sort}, {"lock;walk;unlock", lt_lockedwalk}};
+static cop_t LT_OPS[] = {{"put(a)", lt_puta}, {"put(b)", lt_putb}, {"get(a,&size,newmem)", lt_geta}, {"getmulti(a,newmem)", lt_multia}, {"remove(a)", lt_rema}, {"remove(b)", lt_remb}, {"clear", lt_clear}, {"sort", lt_sort}, {"lock;walk;unlock", lt_lockedwalk}};
 
 #define NOPS_OF(a) ((int)(sizeof a / sizeof a[0]))
 static cont_t CONT;
